@@ -24,6 +24,13 @@ open Firefly.Acpi Firefly.Gen.C14
 theorem window_is_bios_area :
     rsdpLocationLow = 0xe0000 ∧ rsdpLocationHi = 0xfffff ∧ rsdpAlignment = 16 ∧ pageShift = 12 := by decide
 
+/-- The number of bytes the compiled code sums for a root pointer, measured by the harness on the
+real `locateRSDT`: 20 for revision 0, 36 otherwise — whatever the structure's own `Length` field
+says (0, 20, 36, 292). -/
+theorem checksum_lengths_fixed :
+    rsdpChecksumLen = 20 ∧ extRsdpChecksumLen = 36 ∧ extRsdpChecksumLenLength0 = 36 ∧
+    extRsdpChecksumLenLength20 = 36 ∧ extRsdpChecksumLenLength292 = 36 := by decide
+
 /-- `validTable` accepts exactly when the plain sum of the bytes is 0 mod 256. -/
 theorem checksum_is_byte_sum (m : Mem) (a n : Nat) :
     validTable m a n = true ↔ SumsToZero m a n :=
